@@ -1066,8 +1066,8 @@ def compare(case, obs, mouts):
             if "err" in real or "err" in m:
                 if real.get("err") != m.get("err"):
                     return f"get_numbered_lines ({what}): real {json.dumps(real)[:100]} model {json.dumps(m)[:100]}"
-            elif real["ok"] != m["ok"]:
-                for i, (a, b) in enumerate(zip(real["ok"], m["ok"])):
+            elif [r[:3] for r in real["ok"]] != m["ok"]:
+                for i, (a, b) in enumerate(zip([r[:3] for r in real["ok"]], m["ok"])):
                     if a != b:
                         return f"get_numbered_lines ({what}) record {i}: real {a} model {b}"
                 return f"get_numbered_lines ({what}): {len(real['ok'])} records vs model {len(m['ok'])}"
